@@ -88,7 +88,7 @@ def history_failures(h):
 def check_histories(r, rng, n, exhaustive=False):
     dist = collections.Counter()
     nviol = 0
-    hists = [H.gen_history(rng, dict(alt=False, cap=c)) for c in H.CAPS]
+    hists = H.corpus(modes=(False,)) + [H.gen_history(rng, dict(alt=False, cap=c)) for c in H.CAPS]
     while len(hists) < n:
         hists.append(H.gen_history(rng, dict(alt=False)))
     if exhaustive:
@@ -304,6 +304,23 @@ def numeric(r, rng, quick):
         r.violation(what, dict(key='c13-' + rec['kind'], **rec))
 
 
+# source lines of the covered functions that may stay unexecuted, each with its reason
+COV_ALLOW = (
+    'assert False',     # Integrator._integrate: `mode` is only ever 'integrate' or 'predict'
+)
+
+
+def cov_functions():
+    from pyins import error_model, measurements
+    f = H.cov_functions()
+    E = error_model.InsErrorModel
+    f.update({'InsErrorModel.correct_pva': E.correct_pva, 'InsErrorModel._transform_3d_2d': E._transform_3d_2d,
+              'InsErrorModel.transform_to_output': E.transform_to_output,
+              'Position.compute_matrices': measurements.Position.compute_matrices,
+              'NedVelocity.compute_matrices': measurements.NedVelocity.compute_matrices})
+    return f
+
+
 def check(r):
     r.trusted += [
         "translator tools/sym.py + tools/ir2coq.py + tools/reg/c13.py (symbolic tracing of the 2D branch of "
@@ -323,9 +340,13 @@ def check(r):
     if r.generate(['NumbaIntegrate', 'C13Gen']):
         generated_shapes(r)
     r.prove('Props/C13.v')
-    numeric(r, random.Random(r.seed + 13), r.tier == 'quick')
+    cv = H.Coverage(cov_functions(), COV_ALLOW)
+    with cv:                                # all numeric runs are with_altitude=False, in this process
+        numeric(r, random.Random(r.seed + 13), r.tier == 'quick')
+    cv.finish(r)
     if r.tier == 'thorough':
-        r.hygiene()
+        r.hygiene('Props/C13.v')
+        r.coqchk('Props/C13.v')
 
 
 def falsify(r):
